@@ -18,7 +18,7 @@ impl Prop for C01 {
     fn id(&self) -> &'static str { "C01" }
     fn rule(&self) -> String {
         "hook stream: chunk sizes {1,2,3,5,8} x plaintext lengths 0..3cs+1 x read compositions (exhaustive for cs<=3, sampled above), \
-         decrypt under a random read partition and write-accept schedule; public API at 64 KiB chunks: lengths around k*65536 x read schedules \
+         the ciphertext sink accepting 1-byte / small / whole writes, decrypt under a random read partition and write-accept schedule; public API at 64 KiB chunks: lengths around k*65536 x read schedules \
          {full, oneshort, boundary, random, halves, trickle} x write schedules, random key sets, explicit and implementation-chosen randomness. \
          non-trivial = distinct (chunk size, length, read partition / schedule kind) with at least two chunks or a short read".into()
     }
@@ -76,8 +76,10 @@ impl Prop for C01 {
             let aad = unhex(get(c, "aad"));
             let key = rng.bytes(32);
             let rs = reads_of(&parts);
-            let enc = imp::enc_chunks(&key, &aad, cs as u32, &p, &Scripts { rs: &rs, ws: &[], fs: &[] });
-            let menc = parse_stream(&m.ask(&format!("enc_chunks {} {} {} {} {} - -", hex(&key), hexd(&aad), cs, hexd(&p), rd_script(&rs))));
+            // the ciphertext sink accepts the data in pieces too (every second case: one byte at a time, else random small pieces)
+            let ews = write_schedule(*rng.pick(&["all", "one", "small"]), 40 * (parts.len() + 1), &mut rng);
+            let enc = imp::enc_chunks(&key, &aad, cs as u32, &p, &Scripts { rs: &rs, ws: &ews, fs: &[] });
+            let menc = parse_stream(&m.ask(&format!("enc_chunks {} {} {} {} {} {} -", hex(&key), hexd(&aad), cs, hexd(&p), rd_script(&rs), wr_script(&ews))));
             o.impl_obs = format!("enc={} ct={}", enc.res, preview(&enc.out));
             o.model_obs = format!("enc={} ct={}", menc.res, preview(&menc.out));
             o.tags.push(format!("hook cs={}", cs));
@@ -112,8 +114,10 @@ impl Prop for C01 {
         let (spk, rpk, epk) = (pub_of(&s), pub_of(&r), pub_of(&e));
         let fresh = get(c, "fresh") == "true";
         let rs = read_schedule(get(c, "rk"), len, 65536, &mut rng);
-        let enc = if fresh { imp::key_encrypt(&s, &spk, &rpk, None, None, &p, &Scripts { rs: &rs, ws: &[], fs: &[] }) }
-                  else { imp::key_encrypt(&s, &spk, &rpk, Some((&e, &epk)), Some(&pk), &p, &Scripts { rs: &rs, ws: &[], fs: &[] }) };
+        // the ciphertext sink may accept fewer bytes than offered (first writes as small as 1 byte)
+        let ews: Vec<WrEv> = match seed % 4 { 0 => vec![], 1 => (0..300).map(|_| WrEv::Accept(1)).collect(), 2 => vec![WrEv::Accept(100), WrEv::Accept(31), WrEv::Accept(1)], _ => write_schedule("random", len, &mut rng) };
+        let enc = if fresh { imp::key_encrypt(&s, &spk, &rpk, None, None, &p, &Scripts { rs: &rs, ws: &ews, fs: &[] }) }
+                  else { imp::key_encrypt(&s, &spk, &rpk, Some((&e, &epk)), Some(&pk), &p, &Scripts { rs: &rs, ws: &ews, fs: &[] }) };
         o.impl_obs = format!("enc={} ct={}B", enc.res, enc.out.len());
         o.tags.push(format!("api rk={}", get(c, "rk")));
         o.tags.push(format!("api len~{}", if len < 65536 { "lt1chunk" } else if len % 65536 == 0 { "k*64KiB" } else { "multi" }));
@@ -121,7 +125,7 @@ impl Prop for C01 {
         if len >= 65536 || get(c, "rk") != "full" { o.nontrivial = Some(format!("a/{}/{}/{}/{}", len, get(c, "rk"), get(c, "wk"), seed % 1000)); }
         if enc.res != "ok" { o.oracle_fail = Some(("encrypt-succeeds".into(), format!("key_encrypt returned {}", enc.res))); return o; }
         if !fresh {
-            let menc = parse_stream(&m.ask(&format!("key_encrypt {} {} {} {} {} {} {} {} - -", hex(&s), hex(&spk), hex(&rpk), hex(&e), hex(&epk), hex(&pk), hexd(&p), rd_script(&rs))));
+            let menc = parse_stream(&m.ask(&format!("key_encrypt {} {} {} {} {} {} {} {} {} -", hex(&s), hex(&spk), hex(&rpk), hex(&e), hex(&epk), hex(&pk), hexd(&p), rd_script(&rs), wr_script(&ews))));
             o.model_obs = format!("enc={} ct={}B", menc.res, menc.out.len());
             if menc.res != enc.res || menc.out != enc.out {
                 let at = enc.out.iter().zip(menc.out.iter()).position(|(a, b)| a != b).unwrap_or(enc.out.len().min(menc.out.len()));
